@@ -165,6 +165,34 @@ def _thick(F, PROT, rep, tag):
                         rep.bad("R-THICK", b["key"] + " uses the helper", "%s does not obtain its fat pointer from the length-reading helper" % b["key"], F.loc(b), tag)
 
 
+def _is_prefix_payload(F, ti, HWL):
+    """`HeaderSlice<HeaderWithLength<H>, [T; 0]>`: the sized prefix a thin pointer is typed at."""
+    t = F.ty(ti)
+    if t["k"] != "adt":
+        return False
+    args = [a["t"] for a in t.get("args", []) if "t" in a]
+    return len(args) == 2 and F.is_adt(args[0], HWL) and F.ty(args[1])["k"] == "array" and str(F.ty(args[1]).get("len")) == "0"
+
+
+def _no_prefix_owner(F, HWL, rep, tag):
+    """No owning `Arc` is ever typed at the thin pointer's prefix type: dropping such a handle as the last owner destroys the header
+    only and frees a zero-element layout (seed C10m: arc-swap's `dec` written as `drop(Arc::from_raw(ptr))` on the thin pointer).
+    Every owner taken back from a thin pointer goes through the length-reading helper (`Arc::from_thin` / `thin_to_thick`)."""
+    bad = None
+    for b in F.body_list:
+        for lc in b["locals"]:
+            ti = F.strip_refs(lc["ty"])
+            if F.handle_name(ti) in ("Arc", "UniqueArc", "OffsetArc"):
+                inner = [a["t"] for a in F.ty(ti).get("args", []) if "t" in a]
+                if inner and _is_prefix_payload(F, inner[0], HWL) and bad is None:
+                    bad = (b, F.ts(lc["ty"]))
+    ik = "no owner typed at the thin prefix"
+    if bad is None:
+        rep.ok("R-THICK", ik, cfg=tag)
+    else:
+        rep.bad("R-THICK", ik, "%s holds a value of type %s: an owning handle typed at the zero-length prefix of a thin allocation - released as the last owner it runs no element destructor and frees the block with the prefix's layout; owners come back from a thin pointer through the helper that reads the stored length" % (bad[0]["key"], bad[1]), F.loc(bad[0]), tag)
+
+
 def rule_thick(ctx, rep):
     """R-THICK alone (premise of C11: what `from_raw(into_raw(x))` gives back is read through the same helper)."""
     for tag, F, E in ctx.each():
@@ -172,6 +200,8 @@ def rule_thick(ctx, rep):
         if not PROT or not F.handle_paths.get("ThinArc"):
             continue
         _thick(F, PROT, rep, tag)
+        if hwl_path(F):
+            _no_prefix_owner(F, hwl_path(F), rep, tag)
     rep.floor("R-THICK", 3, "the re-fattening helper + at least two users")
 
 
@@ -283,6 +313,7 @@ def run(ctx, rep):
         _thin_ctor(F, PROT, thin, rep, tag)
         _prot_mut(F, PROT, HWL, thin, rep, tag)
         _thick(F, PROT, rep, tag)
+        _no_prefix_owner(F, HWL, rep, tag)
         # ------------------------------------------------------------ identity of conversions (same allocation, count untouched)
         N = ptrclass.Norm(F)
         fA, fT = N.handle_ptr_fields.get("Arc"), N.handle_ptr_fields.get("ThinArc")
